@@ -205,6 +205,12 @@ def judge(ck, inp, probe, outputs, build_ok, observed, ans):
         oracle(ck, dict(inp, session=si), probe, outputs, ob, profile_files)
 
 
+def one_line(text):
+    """a cell of the data file: a tab / line feed / carriage return in a unit or criterion is a space in the
+    Measurement the session holds, reports and writes"""
+    return text.replace('\t', ' ').replace('\r', ' ').replace('\n', ' ')
+
+
 def expected_meas(probe, outputs, ob, fi):
     """the measurement lines the property demands for file fi in this session"""
     exp = []
@@ -226,7 +232,7 @@ def expected_meas(probe, outputs, ob, fi):
                 if run['profile']:
                     exp.append([str(s[2]), '1', '0.000000', '', 'total'] + run['cols'])
                 else:
-                    exp.append([str(s[2]), str(j + 1), value_text(v), unit, crit] + run['cols'])
+                    exp.append([str(s[2]), str(j + 1), value_text(v), one_line(unit), one_line(crit)] + run['cols'])
     # in the shape a reader sees: split at tabs (a configured text may itself contain one)
     return ['\t'.join(e).split('\t') for e in exp]
 
@@ -387,7 +393,7 @@ def oracle(ck, inp, probe, outputs, ob, profile_files):
                             # the run record describes the run of the line: its variables are the line's columns
                             for key, ci in (('cores', 4), ('inputSize', 5), ('varValue', 6), ('tag', 7),
                                             ('machine', 8)):
-                                col = '' if rd.get(key) is None else str(rd[key])
+                                col = '' if rd.get(key) is None else one_line(str(rd[key]))   # as a cell
                                 if col != runcols[ci]:
                                     problem = 'run-variables:%s' % key
                 if problem:
